@@ -273,4 +273,64 @@ theorem C20_system_quiescent_consistent (ops sched : List SysOp) (hall : SysAllo
   unfold Gossip.liveValue
   cases (Gossip.own xa.mgr.gossip).entries.find ("endpoint:" ++ e) <;> rfl
 
+/-! ### non-vacuity (system level): the concrete three-node run of `Props/C04.lean`
+
+`SysEx.hist` (three boots; upstream 3 registers `foo` on `n1`, upstream 5 registers `foo` on `n2`,
+upstream 7 registers `bar` on `n1` and disconnects) is evaluated by `decide` (`SysEx.final_node`); the
+six exchanges of `SysEx.sched` are discharged by the theorems. -/
+
+section SysExample
+open Piko.SysEx
+
+/-- in the final state `n1`'s three stores agree - one upstream of `foo`, none of `bar` (withdrawn) -
+and `n0`'s copies agree with them: its gossip view of `n1` shows the live count `"1"` for `foo` and no
+live entry for `bar`, its routing-table row of `n1` is `active` and lists `foo ↦ 1` and no `bar`. -/
+example : ∃ x0 x1 V row,
+    (Piko.Sys.runRev (sched ++ hist)).node "n0" = some x0 ∧ (Piko.Sys.runRev (sched ++ hist)).node "n1" = some x1 ∧
+    x1.mgr.registry "foo" = [3] ∧ x1.mgr.registry "bar" = [] ∧
+    x1.mgr.cluster.localNode.endpoints.find "foo" = some 1 ∧ advertised x1.mgr "foo" = some "1" ∧
+    x1.mgr.cluster.localNode.endpoints.find "bar" = none ∧ advertised x1.mgr "bar" = none ∧
+    x0.mgr.gossip.nodes.find "n1" = some V ∧ V.left = false ∧
+    (V.entries.find ("endpoint:" ++ "foo")).bind (fun en => if en.deleted then none else some en.value) = some "1" ∧
+    (V.entries.find ("endpoint:" ++ "bar")).bind (fun en => if en.deleted then none else some en.value) = none ∧
+    x0.mgr.cluster.nodes.find "n1" = some row ∧ row.status = .active ∧
+    row.endpoints.find "foo" = some 1 ∧ row.endpoints.find "bar" = none := by
+  obtain ⟨x0, h0⟩ := final_exists "n0" (Or.inl rfl)
+  obtain ⟨x1, h1⟩ := final_exists "n1" (Or.inr (Or.inl rfl))
+  have hfoo : x1.mgr.registry "foo" = [3] := by rw [registry_final h1]; simp
+  have hbar : x1.mgr.registry "bar" = [] := by rw [registry_final h1]; simp
+  obtain ⟨hloc, hrem⟩ := C20_system_quiescent_consistent hist sched allowed quiet joins healthy.notLeft
+    healthy.addrs healthy.small "n1" x1 h1
+  obtain ⟨V, row, hV, _, hleft, _, hadv, _, hrow, _, _, _, hst, hes⟩ := hrem "n0" x0 (by decide) h0
+  have l1 := hloc "foo"
+  have l2 := hloc "bar"
+  have a1 := hadv "foo"
+  have a2 := hadv "bar"
+  have e1 := (hes "foo").2
+  have e2 := (hes "bar").2
+  rw [hfoo] at l1 e1
+  rw [hbar] at l2 e2
+  rw [l1.2] at a1
+  rw [l2.2] at a2
+  have hunr := healthy.reachable "n0" x0 "n1" V h0 hV (by decide)
+  refine ⟨x0, x1, V, row, h0, h1, hfoo, hbar, by simpa using l1.1, by rw [l1.2]; decide, by simpa using l2.1,
+    by simpa using l2.2, hV, hleft, by rw [a1]; decide, by simpa using a2, hrow, by rw [hst, hunr]; rfl,
+    by simpa using e1, by simpa using e2⟩
+
+/-- `C20_system_local_consistent` needs no settling: right after `hist`, before any gossip exchange -/
+example : ∃ x1, (Piko.Sys.runRev hist).node "n1" = some x1 ∧ x1.mgr.registry "foo" = [3] ∧
+    x1.mgr.cluster.localNode.endpoints.find "foo" = some 1 ∧ advertised x1.mgr "foo" = some "1" := by
+  cases hx : (Piko.Sys.runRev hist).node "n1" with
+  | none => have := hist_n1; simp [summary, hx] at this
+  | some x1 =>
+    have hs := hist_n1
+    simp only [summary, hx, Option.map_some, Option.some.injEq, Prod.mk.injEq] at hs
+    have hfoo : x1.mgr.registry "foo" = [3] := by simp [Upstream.Mgr.registry, hs.1]
+    obtain ⟨⟨row, _, _, hloc, hc⟩, hadv⟩ :=
+      C20_system_local_consistent hist (sysAllowed_append sched hist allowed) "n1" x1 hx "foo"
+    rw [hfoo] at hc hadv
+    exact ⟨x1, rfl, hfoo, by rw [hloc]; simpa using hc, by rw [hadv]; decide⟩
+
+end SysExample
+
 end Piko
